@@ -254,10 +254,23 @@ package engine
 //@ spec pred sortIdxsOK(sortIdxs []int, rows []*storage.Row) { forall s, k int :: 0 <= s && s < len(sortIdxs) && 0 <= k && k < len(rows) ==>
 //@        rows[k] != nil && 0 <= sortIdxs[s] && sortIdxs[s] < len(rows[k].Vals) }
 
+//@ spec pred colTyped(rows []*storage.Row, idx int) {
+//@        (forall k int :: 0 <= k && k < len(rows) ==> typeof(rows[k].Vals[idx]) == typ(int64)) ||
+//@        (forall k int :: 0 <= k && k < len(rows) ==> typeof(rows[k].Vals[idx]) == typ(string)) ||
+//@        (forall k int :: 0 <= k && k < len(rows) ==> typeof(rows[k].Vals[idx]) == typ(bool)) }
+//@ spec pred sortTyped(sortIdxs []int, rows []*storage.Row) { len(rows) > 1 ==> forall s int :: 0 <= s && s < len(sortIdxs) ==> colTyped(rows, sortIdxs[s]) }
+
+//@ func sameSortType(a interface{}, b interface{}) bool
+//@   props C18
+//@   pure
+//@   ensures result <==> ((typeof(a) == typ(int64) && typeof(b) == typ(int64)) || (typeof(a) == typ(string) && typeof(b) == typ(string)) ||
+//@              (typeof(a) == typ(bool) && typeof(b) == typ(bool)))
+
 //@ func sortColumns$1(i int, j int) bool
 //@   props C05 C18
 //@   pure
 //@   requires 0 <= i && i < len(rows) && 0 <= j && j < len(rows) && sortIdxsOK(sortIdxs, rows) && len(sortIdxs) <= len(ssl)
+//@   requires sortTyped(sortIdxs, rows)
 
 //@ func sortColumns(ssl []sql.SortSpecification, qfields storage.Fields, rows []*storage.Row) error
 //@   props C05 C18
@@ -267,6 +280,13 @@ package engine
 //@   loop 1 invariant (sortIdxs == nil || fresh(sortIdxs)) && len(sortIdxs) == rangeindex + 1 &&
 //@              (forall s int :: 0 <= s && s < len(sortIdxs) ==> 0 <= sortIdxs[s] && sortIdxs[s] < len(qfields))
 //@   loop 1 decreases len(ssl) - rangeindex
+//@   loop 2 invariant forall s int :: 0 <= s && s <= rangeindex ==> colTyped(rows, sortIdxs[s])
+//@   loop 2 decreases len(sortIdxs) - rangeindex
+//@   loop 3 invariant forall k int :: 0 <= k && k <= rangeindex ==>
+//@              ((typeof(rows[0].Vals[fieldIdx]) == typ(int64) && typeof(rows[k].Vals[fieldIdx]) == typ(int64)) ||
+//@               (typeof(rows[0].Vals[fieldIdx]) == typ(string) && typeof(rows[k].Vals[fieldIdx]) == typ(string)) ||
+//@               (typeof(rows[0].Vals[fieldIdx]) == typ(bool) && typeof(rows[k].Vals[fieldIdx]) == typ(bool)))
+//@   loop 3 decreases len(rows) - rangeindex
 
 //@ spec pred aggTyped(sl sql.SelectList, rows []*storage.Row) { forall i, c int :: 0 <= i && i < len(rows) && 0 <= c && c < len(sl) &&
 //@        (typeof(vep(sl,c)) == typ(sql.Count) || typeof(vep(sl,c)) == typ(sql.Average)) ==> typeof(rows[i].Vals[c]) == typ(int64) }
